@@ -279,8 +279,35 @@ def motors_random(ctx, rng):
                    "version learnt through %s" % setup], scen)
 
 
+def marathon(ctx, rng):
+    """ONE object, 22000 write / read-back / nickname / motor round trips (66000+ requests)."""
+    world = ebb3mon.World(board_kwargs={"version": "3.0.2"})
+    world.attach()
+    n = ctx.budget(22_000, 50_000)
+    for i in range(n):
+        value = (i * 2654435761) % 2 ** 32 - 2 ** 31
+        slot = i % 26
+        t1, _ = ebb3mon.call_step(world, {"m": "var_write_int32", "a": [value, slot]})
+        t2, _ = ebb3mon.call_step(world, {"m": "var_read_int32", "a": [slot]})
+        got = None if t2 is None else t2.get("result")
+        stored = int.from_bytes(bytes(world.board.ram[slot:slot + 4]), "big", signed=True)
+        if t1 is None or t2 is None or "raised" in t1 or "raised" in t2 or got != value or stored != value \
+                or world.obj.__dict__.get("err") is not None:
+            ctx.violation("int32 round trip failed on a long-lived object", {
+                "round_trip_number": i + 1, "value": value, "slot": slot, "read_back": repr(got), "stored": stored,
+                "err": world.obj.__dict__.get("err"),
+                "raised": repr((t1 or {}).get("raised") or (t2 or {}).get("raised"))})
+            break
+        if i % 3000 == 2999:
+            world.log.events.clear()
+            world.mon.done = []
+    ctx.case(["one object, tens of thousands of round trips"], ("marathon", n))
+
+
 def run(ctx):
     rng = ctx.rng
+    marathon(ctx, rng)
+    ctx.need("one object, tens of thousands of round trips", 1)
     if ctx.shard == 0:
         n = motors_exhaustive(ctx)
         ctx.need("motors exhaustive", 2 * n)
